@@ -24,7 +24,8 @@ SD = "specs/collfs"
 # respect what the contract leaves unjudged (OutputCopy.tla header): a link target never passes THROUGH another
 # link, and a target inside the collection mount names something that exists there.
 # ---------------------------------------------------------------------------------------------------------
-NAMES = [[97], [98], [99], [120], [121]]          # a b c x y
+NAMES = [[97], [98], [99], [120], [121],                 # a b c x y
+         [97, 32, 98], [58, 99], [92, 49], [233], [120, 255]]   # "a b", ":c", "\\1", a Latin-1 byte, "x" 0xFF
 UP = [46, 46]
 OUT, MNT, SEC, ETC, M_, S_, K_ = [111, 117, 116], [109, 110, 116], [115, 101, 99], [101, 116, 99], [109], [115], [107]
 CONTENTS = [302, 401, 503, 0, 601, 302]
@@ -36,13 +37,17 @@ FAMILY = {
     2: [{"name": [46, 47] + D_, "blocks": [103], "toks": [{"pos": 0, "len": 3, "name": H_}]},
         {"name": [46, 47] + D1_, "blocks": [202], "toks": [{"pos": 0, "len": 2, "name": K_}]},
         {"name": [46, 47] + D1_ + [47] + E_, "blocks": [202, 103], "toks": [{"pos": 1, "len": 3, "name": J_}]}],
+    3: [{"name": [46], "blocks": [103], "toks": [{"pos": 0, "len": 3, "name": [92, 51, 53, 49]}]},
+        {"name": [46, 47, 100, 92, 51, 55, 55], "blocks": [202], "toks": [{"pos": 0, "len": 2, "name": H_}]}],
 }
 P1 = [[], [F_], [G_], [D_], [D_, H_]]
+P3 = [[], [[233]], [[100, 255]], [[100, 255], H_]]           # M3: names that are not UTF-8
 P2 = [[], [D_], [D_, H_], [D1_], [D1_, K_], [D1_, E_], [D1_, E_, J_]]
 # (where, family, mount path, paths existing below the mounted subtree); "deep" = beneath a random subdirectory
 MOUNT_CFGS = [("none", 1, [], [[]]), ("outside", 1, [], P1), ("beneath", 1, [], P1), ("outside", 2, [], P2),
               ("outside", 2, [D_], [[], [H_]]), ("beneath", 2, [D_], [[], [H_]]), ("beneath", 2, [], P2),
-              ("deep", 1, [], P1), ("deep", 2, [D_], [[], [H_]]), ("deep", 2, [], P2)]
+              ("deep", 1, [], P1), ("deep", 2, [D_], [[], [H_]]), ("deep", 2, [], P2),
+              ("outside", 3, [], P3), ("beneath", 3, [], P3), ("deep", 3, [], P3)]
 
 
 def clean(comps):
